@@ -186,6 +186,10 @@ func replayTxPath(name, path string, walLimit uint) (*core.Trace, *txReplayMisma
 				} else {
 					e.SetRoot(ids[p])
 				}
+			case s == "P":
+				if err := e.Checkpoint(); err != nil {
+					fail(i, "CallFailed", "CheckpointWAL: %v", err)
+				}
 			case s == "L":
 				if err := e.Flush(); err != nil {
 					fail(i, "CallFailed", "Flush: %v", err)
